@@ -7,7 +7,7 @@ from typing import Any, Dict, List, Optional
 
 from .absint import Interp, Path
 from .facts import AnalysisError
-from .models import make_interp
+from .models import Sym, make_interp
 from .values import (NONE, TRUE, FALSE, AbsList, BoolV, EnumV, Hole, ListV, Obj, Str, Unknown, Value)
 
 
@@ -72,7 +72,7 @@ def match_interp(program) -> Interp:
 
 def match_scenarios(I: Interp, file_types=("assembly", "binary"), return_modes=("bool", "matched_addrs_list",
                     "all_instructions_string"), search_modes=("first_find", "all_finds"), only_addrs=(False, True),
-                    configs=({}, {"valid_addr_range": {"min": "0x1000", "max": "0x2000"}}),
+                    configs=({}, {"valid_addr_range": {"min": Sym("RANGE_MIN"), "max": Sym("RANGE_MAX")}}),
                     repeat: int = 1) -> List[MatchScenario]:
     """MasterOfPuppets(match_config).perform_matching() for every combination; `repeat` > 1 calls
     perform_matching several times on the same object (results of the last call are returned)."""
